@@ -125,7 +125,7 @@ def check_property(prop, tier):
             for key, g in sorted(W.GENERATORS.items()):
                 if key[0] in results:
                     try:
-                        w = g({}, 'thorough')
+                        w = g(dict(skip_cases=findings.open_cases(prop)), 'thorough')
                     except Exception as e:
                         w = dict(found=False, note='generator error %r' % e)
                     crosscheck.append(dict(unit=key[0], function=key[1], disagreement=bool(w.get('found')), detail=w.get('note') or w.get('input')))
@@ -192,7 +192,11 @@ def check_property(prop, tier):
         else:
             print('[%s] sensitivity %s: %d mutants of the extracted text, %d killed, %d rejected by the front end, %d survivors' % (
                 prop, uid, sr['mutants'], sr['killed'], sr['rejected'], len(sr['survivors'])))
+    shown = set()
     for (fl, e) in known:
+        if fl['obligation'] in shown:
+            continue
+        shown.add(fl['obligation'])
         print('KNOWN-FINDING: property=%s %s (%s at %s)' % (prop, e.get('what'), fl['obligation'], fl.get('repo_loc')))
     for l in vio_lines:
         print(l)
@@ -243,10 +247,16 @@ def main(argv):
             print('driver build failed', W._built['log'])
             return 2
         bad = 0
+        # cases named by an open known finding are skipped here (they DO fail: that is the finding) and replayed separately below
+        known_cases = [c for e in findings.load() if e.get('status') == 'open' for c in e.get('witness_cases', [])]
         for key, g in sorted(W.GENERATORS.items()):
-            r = g({}, tier)
+            r = g(dict(skip_cases=known_cases), tier)
             print('%s.%s: %s' % (key[0], key[1], 'FOUND ' + str(r) if r.get('found') else 'none found (%s)' % r.get('note')))
             bad += 1 if r.get('found') else 0
+        for e in findings.load():
+            if e.get('status') == 'open' and e.get('witness_cases'):
+                r = W.w_explain({}, tier) if e['property'] == 'C20' else dict(found=False, note='no replay generator')
+                print('known finding %s %s: %s' % (e['property'], e['witness_cases'], 'still reproduces: ' + str(r.get('input')) + ' / ' + str(r.get('observed'))[:200] if r.get('found') else 'does NOT reproduce any more'))
         return 1 if bad else 0
     if argv[0] == '--unit':
         uid = argv[1]
